@@ -296,6 +296,26 @@ func (a *Analysis) onlyDeclStore(g *ssa.Global) *ssa.Store {
 	return st
 }
 
+// privateFreshErr: g is a package-level error variable of the module other than the three
+// exported sentinels (or a name for one of them), assigned once, by its declaration, a fresh
+// error value — an error that wraps it matches none of the sentinels.
+func (a *Analysis) privateFreshErr(g *ssa.Global) bool {
+	if g == nil || g.Pkg == nil || !a.P.InModule(g.Pkg) {
+		return false
+	}
+	for _, name := range []string{"ErrWordLen", "ErrEntropyLen", "ErrChecksumIncorrect"} {
+		if s := a.sentinel(name); s == nil || a.canonSentinel(g) == s || g == s {
+			return false
+		}
+	}
+	st := a.onlyDeclStore(g)
+	if st == nil {
+		return false
+	}
+	c := a.classifyErr(st.Val)
+	return c.Kind == "fresh"
+}
+
 // classifyAlloc: &T{…} of a module type whose only error-related method is Error is a fresh
 // error value (pointer identity), matching nothing but itself; with an Is that compares one
 // field, see kindError.
@@ -903,6 +923,44 @@ func (a *Analysis) semanticPredicateGen(f *ssa.Function, bits int, table []int64
 	return out
 }
 
+// detectWalker: the validator (and what it calls) makes no tokeniser call, and exactly one
+// strings.Count(s, sep) with a one-byte ASCII separator: that count stands for the tokeniser
+// (the sentence is cut word by word; evaluator: walkCount, cursorOf).  Run before any evaluation.
+func (a *Analysis) detectWalker() {
+	if a.CM == nil {
+		return
+	}
+	var cnt *ssa.Call
+	nc := 0
+	for f := range a.reachableFrom(a.CM) {
+		for _, c := range callsIn(f) {
+			switch calleeName(c) {
+			case "strings.Split", "strings.Fields", "strings.SplitN":
+				return
+			case "strings.Count":
+				cc, ok := c.(*ssa.Call)
+				if !ok {
+					continue
+				}
+				if s, isC := strConst(cc.Call.Args[1]); !isC || len(s) != 1 || s[0] >= 0x80 {
+					continue
+				}
+				cnt = cc
+				nc++
+			default:
+				if cc, ok := c.(*ssa.Call); ok {
+					if _, isSplit := a.P.byteSplitter(cc.Call.StaticCallee()); isSplit {
+						return
+					}
+				}
+			}
+		}
+	}
+	if nc == 1 {
+		a.P.walkCount = map[*ssa.Call]bool{cnt: true}
+	}
+}
+
 func (a *Analysis) ruleGates() {
 	semPredMu.Lock()
 	semPredByProg[a.P.SSA] = a.semanticPredicate
@@ -1019,6 +1077,14 @@ func (a *Analysis) ruleGates() {
 				}
 			}
 		}
+		walk := false
+		if tok == nil && n == 0 {
+			// no tokeniser call: `strings.Count(s, sep) + 1` words, cut off the front of s one by
+			// one at strings.IndexByte(rest, sep) (the evaluator follows the cuts: cursorOf)
+			for cnt := range a.P.walkCount {
+				tok, n, walk, handSplit = cnt, 1, true, true
+			}
+		}
 		if tok == nil || n != 1 {
 			a.R.Unk("G3", "CheckMnemonic/subject", a.P.Pos(a.CM.Pos()), "", "expected exactly one tokeniser call (strings.Split or strings.Fields) in CheckMnemonic or the module functions it calls, found %d", n)
 		} else {
@@ -1028,6 +1094,20 @@ func (a *Analysis) ruleGates() {
 				if calleeName(c) == "len" && c.Common().Args[0] == ssa.Value(tok) {
 					subj[c.Value()] = true
 				}
+			}
+			if walk {
+				for _, ref := range *tok.Referrers() {
+					if bo, ok := ref.(*ssa.BinOp); ok && bo.Op == token.ADD {
+						other := bo.Y
+						if other == ssa.Value(tok) {
+							other = bo.X
+						}
+						if k, ok := intConst(other); ok && k == 1 {
+							subj[bo] = true
+						}
+					}
+				}
+				a.R.OK("G3", "CheckMnemonic/walker", a.P.InstrPos(tok), "", "the sentence is not split: strings.Count + 1 is the number of words, cut off one by one at the next separator (followed by the evaluation as the tokens strings.Split would give)")
 			}
 			gateFn, defBlock := tokFn, tok.Block()
 			// strings.Count(s, sep) + 1 with the operands of the strings.Split call is the same
